@@ -1,6 +1,7 @@
 package main
 
 import (
+	"go/token"
 	"fmt"
 	"go/ast"
 	"go/types"
@@ -104,6 +105,8 @@ func propC09(w *World, r *Report) {
 		r.Fail("tabformats", key, "-", why, nil)
 	}
 	checkBestOrder(w, r)
+	checkIDRangeOffset(w, r)
+	checkSeg12Break(w, r)
 	entries := mustFuncs(w, r, detEntries["C09"]...)
 	fns := srcFuncsReachable(w, entries)
 	var cm []*ssa.Function
@@ -209,4 +212,169 @@ func checkBestOrder(w *World, r *Report) {
 	default:
 		r.OK("bestorder", key, w.Pos(fd.Pos()), strings.Join(descr, " "))
 	}
+}
+
+// checkIDRangeOffset: OpenType cmap format 4: the glyph for code c of
+// segment i is glyphIdArray[idRangeOffset[i]/2 + (c - startCode[i]) -
+// (segCount - i)], i.e. idRangeOffset[i] = 2*((segCount - i) + index of the
+// segment's first entry in glyphIdArray).  Writer and reader are each
+// compared with this formula through the linear forms of their SSA values.
+func checkIDRangeOffset(w *World, r *Report) {
+	r.Rule("idrange: in Format4.Encode the idRangeOffset of a segment is 2*(len(segments) - i) + 2*len(glyphIdArray so far), and decodeFormat4 indexes the glyph id array with idRangeOffset/2 - (segCount - k) + (code - start) — the two halves of the cmap format 4 addressing rule")
+	br := newBoundsRun(w)
+	// ---- writer
+	enc := w.Func("(cmap.Format4).Encode")
+	key := r.MkKey("idrange", "cmap.Format4.Encode", "idRangeOffset written")
+	if enc == nil {
+		r.Fatal("(cmap.Format4).Encode does not resolve")
+		return
+	}
+	p := br.prover(enc)
+	found := false
+	for _, b := range enc.Blocks {
+		for _, in := range b.Instrs {
+			cv, ok := in.(*ssa.Convert)
+			if !ok || !isIntType(cv.X.Type()) || btypeBits(cv.Type()) != 16 {
+				continue
+			}
+			l := p.linOf(cv.X)
+			var lens []atom
+			var others []atom
+			for a := range l.t {
+				if a.k == aLen {
+					lens = append(lens, a)
+				} else {
+					others = append(others, a)
+				}
+			}
+			if len(lens) != 2 || len(others) != 1 {
+				continue
+			}
+			found = true
+			// the loop index: the value used to index the segment list in this loop
+			ok2 := len(others) == 1 && l.t[lens[0]] == 2 && l.t[lens[1]] == 2 && l.t[others[0]] == -2
+			if ok2 {
+				// constant: -2*(i - phi) where i = phi + c
+				idx := blatom(others[0])
+				ok2 = false
+				for _, bb := range enc.Blocks {
+					for _, ii := range bb.Instrs {
+						if ia, isIA := ii.(*ssa.IndexAddr); isIA {
+							il := p.linOf(ia.Index)
+							if c, has := il.t[others[0]]; has && c == 1 && len(il.t) == 1 {
+								if d, okd := il.sub(idx); okd && l.k == -2*d.k {
+									ok2 = true
+								}
+							}
+						}
+					}
+				}
+			}
+			if ok2 {
+				r.OK("idrange", key, w.Pos(cv.Pos()), "2*(len(segments) - i) + 2*len(glyphIdArray)")
+			} else {
+				r.Fail("idrange", key, w.Pos(cv.Pos()), "the idRangeOffset written is "+p.linStr(l)+", the format says 2*(number of remaining idRangeOffset entries) + 2*(entries already in glyphIdArray)", nil)
+			}
+		}
+	}
+	if !found {
+		r.Fail("idrange", key, w.Pos(enc.Pos()), "no 16-bit value computed from two slice lengths found (the idRangeOffset)", nil)
+	}
+	// ---- reader
+	dec := w.Func("cmap.decodeFormat4")
+	key2 := r.MkKey("idrange", "cmap.decodeFormat4", "glyph id array index")
+	if dec == nil {
+		r.Fatal("cmap.decodeFormat4 does not resolve")
+		return
+	}
+	pd := br.prover(dec)
+	okDec := false
+	var posDec token.Pos
+	for _, b := range dec.Blocks {
+		for _, in := range b.Instrs {
+			bo, ok := in.(*ssa.BinOp)
+			if !ok || bo.Op != token.SUB {
+				continue
+			}
+			// d := int(idRangeOffset[k])/2 - (segCount - k)
+			l := pd.linOf(bo)
+			var quo, plus, minus int
+			for a, c := range l.t {
+				if q, isQ := a.v.(*ssa.BinOp); isQ && q.Op == token.QUO && c == 1 {
+					if d, okc := bconstInt(q.Y); okc && d == 2 {
+						quo++
+						continue
+					}
+				}
+				if c == 1 {
+					plus++
+				} else if c == -1 {
+					minus++
+				} else {
+					plus += 10
+				}
+			}
+			if quo == 1 && plus == 1 && minus == 1 && l.k == 0 && len(l.t) == 3 {
+				okDec, posDec = true, bo.Pos()
+			}
+		}
+	}
+	if okDec {
+		r.OK("idrange", key2, w.Pos(posDec), "idRangeOffset/2 - segCount + k")
+	} else {
+		r.Fail("idrange", key2, w.Pos(dec.Pos()), "no value of the form idRangeOffset/2 - (segCount - k) is computed: the reader does not follow the format 4 addressing rule", nil)
+	}
+	r.Floor("idrange", 2)
+}
+
+// checkSeg12Break: format 12 groups are runs of consecutive code points
+// with consecutive glyph ids; the writer must start a new group whenever
+// the code points are not adjacent.
+func checkSeg12Break(w *World, r *Report) {
+	r.Rule("seg12break: in Format12.Encode the decision to continue a group compares the sorted code points keys[i] and keys[i-1]+1 directly (adjacent code points), not only a difference that also involves the glyph ids")
+	fn := w.Func("(cmap.Format12).Encode")
+	key := r.MkKey("seg12break", "cmap.Format12.Encode", "group boundary test")
+	if fn == nil {
+		r.Fatal("(cmap.Format12).Encode does not resolve")
+		return
+	}
+	p := newBoundsRun(w).prover(fn)
+	for _, b := range fn.Blocks {
+		for _, in := range b.Instrs {
+			cmp, ok := in.(*ssa.BinOp)
+			if !ok || (cmp.Op != token.NEQ && cmp.Op != token.EQL) {
+				continue
+			}
+			isElem := func(v ssa.Value) (*ssa.IndexAddr, bool) {
+				ld, ok := v.(*ssa.UnOp)
+				if !ok || ld.Op != token.MUL {
+					return nil, false
+				}
+				ia, ok := ld.X.(*ssa.IndexAddr)
+				return ia, ok
+			}
+			for _, pair := range [][2]ssa.Value{{cmp.X, cmp.Y}, {cmp.Y, cmp.X}} {
+				ia1, ok1 := isElem(pair[0])
+				add, ok2 := pair[1].(*ssa.BinOp)
+				if !ok1 || !ok2 || add.Op != token.ADD {
+					continue
+				}
+				one, okc := bconstInt(add.Y)
+				ia2, ok3 := isElem(add.X)
+				if !okc || one != 1 || !ok3 || p.canonVal(ia1.X) != p.canonVal(ia2.X) {
+					continue
+				}
+				d, okd := p.linOf(ia1.Index).sub(p.linOf(ia2.Index))
+				if okd && d.isConst() && d.k == 1 {
+					if _, isIf := (*cmp.Referrers())[0].(*ssa.If); isIf || len(*cmp.Referrers()) > 0 {
+						r.OK("seg12break", key, w.Pos(cmp.Pos()), "keys[i] is compared with keys[i-1]+1")
+						r.Floor("seg12break", 1)
+						return
+					}
+				}
+			}
+		}
+	}
+	r.Fail("seg12break", key, w.Pos(fn.Pos()), "no comparison of adjacent sorted code points (keys[i] against keys[i-1]+1) decides the group boundaries: code points that are not consecutive can end up in one group, which then covers code points that are not mapped", nil)
+	r.Floor("seg12break", 1)
 }
